@@ -12,8 +12,12 @@ require (
 
 require (
 	github.com/weppos/publicsuffix-go v0.40.3-0.20250127173806-e489a31678ca // indirect
+	golang.org/x/mod v0.22.0 // indirect
 	golang.org/x/net v0.38.0 // indirect
+	golang.org/x/sync v0.12.0 // indirect
 	golang.org/x/text v0.23.0 // indirect
 )
 
 replace github.com/zmap/zlint/v3 => /repo/v3
+
+replace golang.org/x/sync => golang.org/x/sync v0.10.0
